@@ -236,7 +236,8 @@ for srcDirectory in inputMibs:
                                      'destination directory "%s": %s\r\n' % (os.path.join(srcDirectory, mibFile),
                                                                              dstDirectory, ex))
 
-                dstMibRevision = datetime.fromtimestamp(0)
+                # nothing at the destination yet: any source copy is newer
+                dstMibRevision = datetime.min
 
             mibsRevisions[mibName] = dstMibRevision
 
